@@ -63,6 +63,10 @@ def main(argv=None):
         traceback.print_exc()
         print("HARNESS ERROR: %s" % e)
         return 2
+    except Exception as e:   # noqa: an internal error of the machinery is never a verdict
+        traceback.print_exc()
+        print("HARNESS ERROR (internal): %s: %s" % (type(e).__name__, e))
+        return 2
     finally:
         ctx.close()
 
